@@ -83,7 +83,8 @@ def minimize(
     hms_tree.run()
     return OptimizeResult(
         x=hms_tree.best_individual.genome,
-        nfev=hms_tree.n_evaluations,
+        # Evaluations refused by the cutoff wrapper never reach fun, so only forwarded ones are reported.
+        nfev=wrapped_function_problem.n_evaluations if maxfun else hms_tree.n_evaluations,
         fun=hms_tree.best_individual.fitness,
         nit=hms_tree.metaepoch_count,
     )
